@@ -20,8 +20,9 @@ EXHAUSTIVE = True
 CASE_TIMEOUT = 1500
 RULE = (
     "work item = (seed program, transformation class, constructor variant); "
-    "inside it every target (each node [quick tier: one expression node per "
-    "structural context], each consecutive child list of each Schedule/"
+    "inside it every target (each statement-level node, one expression node "
+    "per structural context (class, position, parent and grand-parent class, "
+    "child classes), each consecutive child list of each Schedule/"
     "Container, a fixed set of ill-formed lists and non-node objects; ordered "
     "node pairs for two-node transformations) x every option descriptor (no "
     "options argument, {}, non-dict, unknown key, every (key,value) of the "
@@ -306,8 +307,10 @@ class SeedState:
     def get_targets(self):
         if self.targets is None:
             inst = self.build()
+            # expression-level nodes: one representative per structural
+            # context in both tiers (statement-level nodes: all)
             single, lists, odd = core.enumerate_targets(
-                inst["root"], dedupe_expressions=(_STATE["tier"] == "quick"))
+                inst["root"], dedupe_expressions=True)
             self.targets = [[t] for t in single + lists + odd]
         return self.targets
 
